@@ -2,10 +2,10 @@ SPECIFICATION Spec
 CONSTANTS
   NL = 2
   MaxFill = 3
-  MaxTrace = 3
+  MaxTrace = 2
   RatioNums = {1,3}
   RatioDen = 4
-  AbNums = {0,1,2,5}
+  AbNums = {0,1,2,3,5,7}
   AbDen = 8
   Variant = "spec"
   Export = TRUE
